@@ -202,7 +202,10 @@ func (o *objectGoReflect) getStr(name unistring.String, receiver Value) Value {
 func (o *objectGoReflect) _getField(jsName string) reflect.Value {
 	if o.fieldsInfo != nil {
 		if info, exists := o.fieldsInfo.Fields[jsName]; exists {
-			return o.fieldsValue.FieldByIndex(info.Index)
+			// a field promoted through a nil embedded pointer does not exist (yet)
+			if v, err := o.fieldsValue.FieldByIndexErr(info.Index); err == nil {
+				return v
+			}
 		}
 	}
 
